@@ -192,8 +192,9 @@ pub fn replay(v: &Value) -> i32 {
     let node = single::node_addr(cfg.v6);
     for d in res.wire.iter().filter(|d| (d.src == node || d.dst == node) && d.sent_ms >= 1000) {
         let p = krpc::parse(&d.bytes);
-        println!("  {:>6} ms {} > {} {} ({} bytes) tid={}", d.sent_ms, d.src, d.dst, p.canon_key(), d.bytes.len(), hex(&p.tid));
+        println!("  {:>6} ms {} > {} {} ({} bytes) tid={} delivered={:?}", d.sent_ms, d.src, d.dst, p.canon_key(), d.bytes.len(), hex(&p.tid), d.delivered_ms);
     }
+    println!("run ended at {} ms; node task panics: {}", res.end_ms, res.panics.len());
     let prop = v["check"].as_str().unwrap_or("C05");
     let mut code = 0;
     for (tag, sig, what) in &f.items {
